@@ -59,17 +59,23 @@ Definition blank (s : str) : bool := forallb xml_ws s.
 Definition blank_o (o : option str) : bool := match o with Some s => blank s | None => true end.
 
 (* ================================================================== reads *)
-Definition reads_attrs (ns : nsmap) (eats : list (XmlNs.qname * list atom)) (attrs : list (str * str)) : Prop :=
+(* `ord`: the attributes are reported in the order of the tree (document order).  Attribute order is not
+   part of the infoset: the theorems for binding models without attribute MAPS hold for every order
+   (ord = false); a map field (xs:anyAttribute, a Python dict) comes back in the order the attributes
+   were reported, so the theorems for models with such fields speak about the readings that keep the
+   order (ord = true: what the real readers deliver) *)
+Definition reads_attrs (ord : bool) (ns : nsmap) (eats : list (XmlNs.qname * list atom)) (attrs : list (str * str)) : Prop :=
   NoDup (map fst attrs) /\ length attrs = length eats /\
-  forall ea, In ea eats -> exists v, atoms_read ns (snd ea) v /\ In (clark_of (fst ea), v) attrs.
+  (forall ea, In ea eats -> exists v, atoms_read ns (snd ea) v /\ In (clark_of (fst ea), v) attrs)
+  /\ (ord = true -> map fst attrs = map (fun ea => clark_of (fst ea)) eats).
 
-Fixpoint reads (e : XmlNs.enode) (pevs : list pevent) {struct e} : Prop :=
+Fixpoint reads_o (ord : bool) (e : XmlNs.enode) (pevs : list pevent) {struct e} : Prop :=
   match e with
   | EData _ => False
   | EElem q eats ekids =>
       exists attrs ns text tail kes,
         pevs = PStart (clark_of q) attrs ns :: kes ++ [PEnd (clark_of q) text tail]
-        /\ reads_attrs ns eats attrs /\ blank_o tail = true
+        /\ reads_attrs ord ns eats attrs /\ blank_o tail = true
         /\ match ekids with
            | [] => text = None /\ kes = []
            | [EData atoms] => exists s, atoms_read ns atoms s /\ s <> [] /\ text = Some s /\ kes = []
@@ -78,16 +84,25 @@ Fixpoint reads (e : XmlNs.enode) (pevs : list pevent) {struct e} : Prop :=
                /\ (fix rk (ks : list XmlNs.enode) (kes : list pevent) {struct ks} : Prop :=
                      match ks with
                      | [] => kes = []
-                     | k :: r => exists a b, kes = a ++ b /\ reads k a /\ rk r b
+                     | k :: r => exists a b, kes = a ++ b /\ reads_o ord k a /\ rk r b
                      end) ekids kes
            end
   end.
 
-Fixpoint reads_kids (ks : list XmlNs.enode) (kes : list pevent) : Prop :=
-  match ks with
-  | [] => kes = []
-  | k :: r => exists a b, kes = a ++ b /\ reads k a /\ reads_kids r b
-  end.
+Definition reads_kids_o (ord : bool) : list XmlNs.enode -> list pevent -> Prop :=
+  fix rk (ks : list XmlNs.enode) (kes : list pevent) {struct ks} : Prop :=
+    match ks with
+    | [] => kes = []
+    | k :: r => exists a b, kes = a ++ b /\ reads_o ord k a /\ rk r b
+    end.
+
+(* every attribute order *)
+Notation reads := (reads_o false).
+Notation reads_kids := (reads_kids_o false).
+
+(* a reading that keeps the order is a reading *)
+Lemma reads_attrs_weaken ord ns eats attrs : reads_attrs ord ns eats attrs -> reads_attrs false ns eats attrs.
+Proof. intros [H1 [H2 [H3 _]]]. repeat split; try assumption. discriminate. Qed.
 
 (* ================================================================== the canonical pump *)
 Definition atoms_str (l : list atom) : str :=
